@@ -67,7 +67,7 @@ def _c02_runs(tier):
 
 PROPS["C02"] = dict(
     level="exploration", runs=_c02_runs,
-    rule="(OpenMP build: mzd_echelonize_m4ri and mzd_echelonize_pluq on > 512-row rank-deficient inputs run under the ICB scheduler with the mini-GOMP runtime for teams 1..4 (thorough 1..5): result equals the reference model on every explored schedule, happens-before race detection) + entry points {naive, gauss_delayed, M4RI (k alphabet), PLUQ-based, hybrid, hybrid with every threshold} x full in {0,1} x inputs: TINY(N) = ALL matrices with <= N entries of every shape (N=14 quick / 18 thorough), LIFT = Kronecker lifts of ALL binary matrices with <= 8 (12) entries by blocks {7,33,65,(1,64)} x {identity, dense invertible, all-ones} x {plain, left-, both-side densified}, ECH = echelon forms over ALL subsets of 10 boundary pivot columns, RK = low-rank products on boundary shapes, BND = boundary shapes x structured patterns, HYB = sparse-start/dense-end block matrices with > 256 sparse columns on which the density-switching hybrid changes algorithm in the middle (every threshold in {0,0.05,0.1,0.2,0.25,0.5,1,2} x k in {0,3,6}), plus threshold shapes of the min-cache build; non-trivial = rank > 0; distinct = distinct (input digest, entry point, full, k, threshold)",
+    rule="(OpenMP build: mzd_echelonize_m4ri and mzd_echelonize_pluq on > 512-row rank-deficient inputs run under the ICB scheduler with the mini-GOMP runtime for teams 1..4 (thorough 1..5): result equals the reference model on every explored schedule, happens-before race detection) + entry points {naive, gauss_delayed, M4RI (k alphabet), PLUQ-based, hybrid, hybrid with every threshold} x full in {0,1} x inputs: TINY(N) = ALL matrices with <= N entries of every shape (N=14 quick / 18 thorough), LIFT = Kronecker lifts of ALL binary matrices with <= 8 (thorough 11) entries by blocks {7,33,65,(1,64)} x {identity, dense invertible, all-ones} x {plain, left-, both-side densified}, ECH = echelon forms over ALL subsets of 10 boundary pivot columns, RK = low-rank products on boundary shapes, BND = boundary shapes x structured patterns, HYB = sparse-start/dense-end block matrices with > 256 sparse columns on which the density-switching hybrid changes algorithm in the middle (every threshold in {0,0.05,0.1,0.2,0.25,0.5,1,2} x k in {0,3,6}), plus threshold shapes of the min-cache build; non-trivial = rank > 0; distinct = distinct (input digest, entry point, full, k, threshold)",
     level_text="Bounded-exhaustive differential exploration: every echelonisation entry point on every member of complete small-matrix domains and of structured families that place every block rank profile across word and table-block boundaries; rank, exact RREF, echelon shape, row space and top-reduction are compared with an independent Gaussian elimination.",
     level_note="Bounded: all matrices only up to 14/18 entries; beyond that lifts of exhaustive cores and fixed families up to 1300 columns. Hybrid density heuristic is only entered for matrices with > 256 columns in the loop and at the start for dense inputs.",
     technique="bounded-exhaustive enumeration (all small matrices, all lifted rank profiles) on the real code against a reference Gaussian elimination",
@@ -85,7 +85,7 @@ def _c03_runs(tier):
 
 PROPS["C03"] = dict(
     level="exploration", runs=_c03_runs,
-    rule="variants {mzd_ple, mzd_pluq (cutoffs), _mzd_ple_naive, _mzd_pluq_naive, _mzd_ple_russian, _mzd_pluq_russian (k alphabet 0..9)} x junk initial P,Q {identity, reversed, INT_MAX, 0xA5A5A5A5, pseudo-random} x inputs TINY(13/16) (ALL matrices up to that many entries), LIFT (all lifted rank profiles), ECH/RK/BND, and in the min-cache build REC = shapes just above the PLE cutoff with every (r1,r2) class incl. r1 % 64 == 0, r1 < n1, r2 >= 128; non-trivial = rank > 0; distinct = distinct (input digest, variant, parameter, junk)",
+    rule="variants {mzd_ple, mzd_pluq (cutoffs), _mzd_ple_naive, _mzd_pluq_naive, _mzd_ple_russian, _mzd_pluq_russian (k alphabet 0..9)} x junk initial P,Q {identity, reversed, INT_MAX, 0xA5A5A5A5, pseudo-random} x inputs TINY(13/16) (ALL matrices up to that many entries), LIFT (all lifted rank profiles, cores of <= 7 (thorough 10) entries), ECH/RK/BND, and in the min-cache build REC = shapes just above the PLE cutoff with every (r1,r2) class incl. r1 % 64 == 0, r1 < n1, r2 >= 128; non-trivial = rank > 0; distinct = distinct (input digest, variant, parameter, junk)",
     level_text="Bounded-exhaustive differential exploration: every PLE/PLUQ variant on complete small-matrix domains and structured rank-profile families, in builds whose cache sizes make the block-recursive algorithm (Schur complement, L compression, P/Q fix-up) reachable; the oracle reconstructs P*L*U*Q (resp. P*L*E) with an independent implementation of the LAPACK swap conventions and checks rank, profile, LAPACK form and zero storage outside L/U.",
     level_note="Bounded as C02. The recursion is entered only in the min-cache build (8192-word cutoff); the host configuration needs > 2^19 words and is covered through its base case only.",
     technique="bounded-exhaustive enumeration (all small matrices, lifted and block rank profiles) on the real code with an independent reconstruction oracle",
@@ -104,7 +104,7 @@ def _c06_runs(tier):
 
 PROPS["C06"] = dict(
     level="exploration", runs=_c06_runs,
-    rule="variants {mzd_solve_left(check=1), mzd_pluq + mzd_pluq_solve_left(check=1), mzd_solve_left(check=0) on consistent systems} x ALL systems (A,B) with A of <= 9 (12) entries and B (max(m,n) x w) of <= 8 (10) entries - every shape m<n, m=n, m>n, every rank, every consistent and inconsistent right-hand side incl. inconsistency only in a padding row - plus lifted/echelon/low-rank/boundary/recursive-PLE systems B = A*X0 with every single bit flip of B in {row 0, middle row, last row of A, first/second/last padding row} x {first,last column}; non-trivial = A or B non-zero; distinct = distinct (A, B, variant, cutoff)",
+    rule="variants {mzd_solve_left(check=1), mzd_pluq + mzd_pluq_solve_left(check=1), mzd_solve_left(check=0) on consistent systems} x ALL systems (A,B) with A of <= 9 (12) entries and B (max(m,n) x w) of <= 8 (thorough 9) entries - every shape m<n, m=n, m>n, every rank, every consistent and inconsistent right-hand side incl. inconsistency only in a padding row - plus lifted/echelon/low-rank/boundary/recursive-PLE systems B = A*X0 with every single bit flip of B in {row 0, middle row, last row of A, first/second/last padding row} x {first,last column}; non-trivial = A or B non-zero; distinct = distinct (A, B, variant, cutoff)",
     level_text="Bounded-exhaustive differential exploration: all small linear systems (complete enumeration of A and B) and structured larger ones are solved by the real routines; the verdict is compared with a reference rank test on [A;0 | B] and every returned solution is multiplied back.",
     level_note="Bounded: complete enumeration only for systems with <= 9+8 (12+10) entries; larger systems come from the structured families with single-bit perturbations of B.",
     technique="bounded-exhaustive enumeration of all small systems on the real code against a reference solvability test",
